@@ -25,7 +25,13 @@ RULE = ("three case kinds: (purity) settings built from the lattice (valid "
         "pairs for which an independent, deliberately under-approximating "
         "model finds a witness (highest common version, suite, group, "
         "signature scheme usable with the server key, key size inside the "
-        "client window) must complete a loopback handshake. non-trivial = "
+        "client window) must complete a loopback handshake; (ortho) every "
+        "accepted value of the settings that restrict nothing shared "
+        "(certificate compression lists incl. empty, psk_modes incl. empty, "
+        "ticket_count, padding / heartbeat / TACK / point-format switches, "
+        "record_size_limit, max_early_data) on either or both sides, with "
+        "and without client authentication and post-handshake "
+        "authentication, must connect and carry data. non-trivial = "
         ">= 2 non-default fields / an out-of-domain value / a witnessed pair "
         "whose policies differ; distinct = hash(case)")
 ASSUMPTIONS = [
@@ -452,6 +458,14 @@ def explicit(tier, seed):
             yield {"k": "domain", "s": d, "field": field, "idx": i}
     for i in range(len(COMBOS)):
         yield {"k": "domain", "s": d, "field": "combo", "idx": i}
+    for v in ((3, 4), (3, 3), (3, 1)):
+        for field in sorted(ORTHO):
+            for idx in range(len(ORTHO[field])):
+                for who in "csb":
+                    for auth in (False, True):
+                        yield {"k": "ortho", "ver": list(v), "field": field,
+                               "idx": idx, "who": who, "auth": auth,
+                               "tickets": idx % 2 == 1}
     # every suite the library lists, pinned settings on both sides with the
     # matching credential: the two sides obviously share it
     from props.c01 import negotiable
@@ -466,7 +480,81 @@ def explicit(tier, seed):
 _orig_check = check
 
 
+ORTHO = {
+    # settings that restrict nothing the other side must share: any value
+    # validate() accepts must still connect
+    "certificate_compression_send": [None, [], ["zlib"]],
+    "certificate_compression_receive": [None, [], ["zlib"]],
+    "psk_modes": [None, [], ["psk_dhe_ke"], ["psk_ke"],
+                  ["psk_ke", "psk_dhe_ke"]],
+    "ticket_count": [None, 0, 1, 3],
+    "usePaddingExtension": [None, False],
+    "use_heartbeat_extension": [None, False],
+    "heartbeat_response_callback": [None],
+    "record_size_limit": [None, 64, 2 ** 14],
+    "max_early_data": [None, 1],
+    "sendFallbackSCSV": [None, False],
+    "useExperimentalTackExtension": [None, True],
+    "ec_point_formats": [None, [0]],
+}
+
+
+def check_ortho(case):
+    v = tuple(case["ver"])
+    labels = ["ortho", "ver=" + sc.VERNAME[v], "field=" + case["field"],
+              "who=" + case["who"]]
+    kw = {"minVersion": v, "maxVersion": v}
+    ckw, skw = dict(kw), dict(kw)
+    val = ORTHO[case["field"]][case["idx"] % len(ORTHO[case["field"]])]
+    if val is not None:
+        if case["who"] in "cb":
+            ckw[case["field"]] = copy.deepcopy(val)
+        if case["who"] in "sb":
+            skw[case["field"]] = copy.deepcopy(val)
+    labels.append("val=%r" % (val,))
+    try:
+        cs = sc.mk_settings(**ckw).validate()
+        ss = sc.mk_settings(**skw).validate()
+    except ValueError:
+        return good(nt=False, labels=labels + ["validate-refuses"])
+    client, server = {"settings": cs}, {"settings": ss, "cred": "rsa"}
+    if case.get("auth"):
+        server["reqCert"] = True
+        client["cred"] = "c_rsa"
+    if case.get("tickets"):
+        ss.ticketKeys = [bytearray(b"o" * 32)]
+    DET.reseed("C19o", v, case["field"], case["idx"], case["who"])
+    p = sc.connect(client, server)
+    ok = p.both_ok
+    if ok and case.get("auth") and v == (3, 4) and not case.get("no_pha"):
+        # post-handshake authentication uses the same settings
+        from vlib.driver import drive
+        outs, _ = drive({"s": p.s.request_post_handshake_auth()}, p.link,
+                        on_stall="leave")
+        oc = sc.do_read(p, "c", 10, 0)
+        os_ = sc.do_read(p, "s", 10, 0)
+        if oc.state == "exc" or os_.state == "exc":
+            return bad("compatible-settings-fail:pha:%s" % case["field"],
+                       "%s=%r on %s: post-handshake authentication: client "
+                       "%r server %r" % (case["field"], val, case["who"], oc,
+                                         os_), labels=labels)
+    if ok:
+        sc.do_write(p, "s", b"x" * 100)
+        d, last = sc.read_all(p, "c")
+        ok = d == b"x" * 100
+    if not ok:
+        return bad("compatible-settings-fail:%s:%s" % (
+            sc.VERNAME[v], case["field"]),
+            "%s=%r on %s (everything else default, %s): client %r server %r"
+            % (case["field"], val, case["who"],
+               "client auth" if case.get("auth") else "no client auth",
+               p.co, p.so), labels=labels)
+    return good(labels=labels)
+
+
 def check(case):    # noqa - extend dispatch with the pinned kind
+    if case["k"] == "ortho":
+        return check_ortho(case)
     if case["k"] == "pinned":
         su = iana.SUITES[case["suite"]]
         v = tuple(case["ver"])
